@@ -17,7 +17,7 @@ import (
 func Arithm(cfg *Config, expr syntax.ArithmExpr) (int, error) {
 	switch expr := expr.(type) {
 	case *syntax.Word:
-		str, err := Literal(cfg, expr)
+		str, err := literal(cfg, expr, false)
 		if err != nil {
 			return 0, err
 		}
